@@ -18,6 +18,11 @@ static CaseResult run_case(Tape &t)
 	int k = classify(p, o);
 	r.render = conf_str(c) + " payload(" + std::to_string(len) + ")=" + hexs(p, 24) + " -> rv=" + std::to_string(o.rv) + " class=" + (k == 0 ? "exact" : (k == 1 ? "nothing" : (k == 2 ? "prefix" : "DIFFERENT")));
 	if (k == 3) r.fail(std::string("C09:mismatch:type=") + QTN[c.qt] + ":codec=" + DE[c.de], "client extracted different bytes than the server was given: " + r.render + " got=" + hexs(o.out, 40));
+	// the outcome is a matter of the answer format, not of the length of the echoed query name
+	Conf c2 = c; c2.namekind = (c.namekind + 1 + (int)t.below(2)) % 3;
+	Outcome o2 = roundtrip(c2, p, (uint16_t)(1 + t.below(65535)));
+	int k2 = classify(p, o2);
+	if (r.ok && k2 != 3 && (k2 != k || o2.out.size() != o.out.size())) r.fail("C09:depends-on-query-name", "the same payload in the same answer format is extracted differently for another query-name length: " + r.render + " | " + conf_str(c2) + " -> rv=" + std::to_string(o2.rv));
 	bool multi = (c.qt == 2 && len > 150) || ((c.qt == 3 || c.qt == 4) && len > 140) || len > 34;
 	r.nontrivial = multi;
 	r.cls(std::string("type:") + QTN[c.qt]); r.cls(std::string("codec:") + DE[c.de]);
@@ -30,35 +35,48 @@ static bool exhaustive(Stats &st, std::string &msg)
 	int job = 0;
 	uint64_t n = 0, nexact = 0, nref = 0;
 	std::string lmax_report;
-	for (int qt = 0; qt < 7; qt++) for (int de = 0; de < 5; de++) for (int nk = 0; nk < 3; nk++) for (int bl = 0; bl < 2; bl++) {
+	for (int qt = 0; qt < 7; qt++) for (int de = 0; de < 5; de++) for (int bl = 0; bl < 2; bl++) {
 		if ((job++) % enum_parts != enum_part) continue;
-		Conf c{qt, de, nk, bl ? 65536 : 4096};
 		int ncls = level >= 2 ? 5 : 2;
 		for (int ci = 0; ci < ncls; ci++) {
-			int cls = level >= 2 ? ci : (ci == 0 ? (qt + de + nk) % 5 : 1);
-			int lmax = 1; bool broken = false; int first_bad = 0;
+			int cls = level >= 2 ? ci : (ci == 0 ? (qt + de) % 5 : 1);
+			int lmax[3] = {1, 1, 1}; bool broken[3] = {false, false, false}; int first_bad[3] = {0, 0, 0};
 			for (int len = 2; len <= 4096; len++) {
-				if (level < 2 && len > 320 && len % 5 != (qt + de) % 5 && !(len % 252 < 4 || len % 252 > 248) && len < 4090) continue;
+				if (level < 2 && len > 320 && len % 5 != (qt + de) % 5 && !(len % 252 < 4 || len % 252 > 248) && len < 4090 && !(len >= 2100 && len <= 2180) && !(len >= 3790 && len <= 3830)) continue;
 				Bytes p = content(len, cls, len * 31 + qt);
-				Outcome o = roundtrip(c, p);
-				int k = classify(p, o);
-				n++;
-				if (o.ref_agrees) nref++;
-				if (k == 3) { msg = std::string("C09:mismatch:type=") + QTN[qt] + ":codec=" + DE[de] + ": client extracted different bytes: " + conf_str(c) + " len=" + std::to_string(len) + " content-class=" + std::to_string(cls) + " rv=" + std::to_string(o.rv) + " got=" + hexs(o.out, 32) + " want=" + hexs(p, 32); return false; }
-				if (k == 0) {
-					nexact++;
-					if (broken) { msg = "C09:non-monotonic: " + conf_str(c) + ": length " + std::to_string(len) + " is delivered exactly but the shorter length " + std::to_string(first_bad) + " was not"; return false; }
-					lmax = len;
-				} else if (!broken) { broken = true; first_bad = len; }
-				bool nt = (qt == 2 && len > 250) || ((qt == 3 || qt == 4) && len > 150) || len > 35 || (lmax > 0 && abs(len - lmax) <= 2);
-				uint64_t key[6] = {(uint64_t)qt, (uint64_t)de, (uint64_t)nk, (uint64_t)bl, (uint64_t)cls, (uint64_t)len};
-				st.add_enum(fnv(key, sizeof key), nt, k == 0 ? "sweep:exact" : (k == 1 ? "sweep:nothing" : "sweep:prefix"));
+				int kk[3]; size_t got[3];
+				for (int nk = 0; nk < 3; nk++) {
+					Conf c{qt, de, nk, bl ? 65536 : 4096};
+					Outcome o = roundtrip(c, p);
+					int k = classify(p, o);
+					kk[nk] = k; got[nk] = o.out.size();
+					n++;
+					if (o.ref_agrees) nref++;
+					if (k == 3) { msg = std::string("C09:mismatch:type=") + QTN[qt] + ":codec=" + DE[de] + ": client extracted different bytes: " + conf_str(c) + " len=" + std::to_string(len) + " content-class=" + std::to_string(cls) + " rv=" + std::to_string(o.rv) + " got=" + hexs(o.out, 32) + " want=" + hexs(p, 32); return false; }
+					if (k == 0) {
+						nexact++;
+						if (broken[nk]) { msg = "C09:non-monotonic: " + conf_str(c) + ": length " + std::to_string(len) + " is delivered exactly but the shorter length " + std::to_string(first_bad[nk]) + " was not"; return false; }
+						lmax[nk] = len;
+					} else if (!broken[nk]) { broken[nk] = true; first_bad[nk] = len; }
+					bool nt = (qt == 2 && len > 250) || ((qt == 3 || qt == 4) && len > 150) || len > 35 || (lmax[nk] > 0 && abs(len - lmax[nk]) <= 2);
+					uint64_t key[6] = {(uint64_t)qt, (uint64_t)de, (uint64_t)nk, (uint64_t)bl, (uint64_t)cls, (uint64_t)len};
+					st.add_enum(fnv(key, sizeof key), nt, k == 0 ? "sweep:exact" : (k == 1 ? "sweep:nothing" : "sweep:prefix"));
+				}
+				// whether a payload fits is a matter of the answer format (type x codec), not of the query name that is echoed in front
+				// of it: minimum-length and maximum-length query names must give the same outcome
+				for (int nk = 1; nk < 3; nk++) if (kk[nk] != kk[0] || got[nk] != got[0]) {
+					Conf c0{qt, de, 0, bl ? 65536 : 4096}, c1{qt, de, nk, bl ? 65536 : 4096};
+					static const char *KN[] = {"exact", "nothing", "prefix"};
+					msg = "C09:depends-on-query-name: payload of " + std::to_string(len) + " bytes (content class " + std::to_string(cls) + "): " + conf_str(c0) + " -> " + KN[kk[0]] + " (" + std::to_string(got[0]) + " bytes), " + conf_str(c1) + " -> " + KN[kk[nk]] + " (" + std::to_string(got[nk]) + " bytes)";
+					return false;
+				}
 			}
 			// "exact when it fits": the largest exact length must not collapse (floors from the format arithmetic,
 			// calibrated on the unchanged tree: one hostname carries >= 100 bytes, NULL/PRIVATE/TXT/MX/SRV >= 1000)
 			int floor_ = (qt == 5 || qt == 6) ? 100 : 1000;
-			if (lmax < floor_) { msg = "C09:capacity-collapse: " + conf_str(c) + ": largest exactly delivered length is " + std::to_string(lmax) + " (< " + std::to_string(floor_) + ")"; return false; }
-			if (ci == 0) { char b[96]; snprintf(b, sizeof b, "%s/%c/n%d/b%d:%d ", QTN[qt], DE[de], nk, bl ? 65536 : 4096, lmax); lmax_report += b; }
+			Conf c{qt, de, 0, bl ? 65536 : 4096};
+			if (lmax[0] < floor_) { msg = "C09:capacity-collapse: " + conf_str(c) + ": largest exactly delivered length is " + std::to_string(lmax[0]) + " (< " + std::to_string(floor_) + ")"; return false; }
+			if (ci == 0) { char b[96]; snprintf(b, sizeof b, "%s/%c/b%d:%d ", QTN[qt], DE[de], bl ? 65536 : 4096, lmax[0]); lmax_report += b; }
 		}
 	}
 	st.extra["sweep_roundtrips"] = std::to_string(n);
